@@ -441,7 +441,12 @@ func (p *Parser) parseStrictTermArg(curObj *Object) (*Object, parseResult) {
 	_, _ = p.nextOpcode()
 	termObj = p.objTree.newObject(nextOp, p.tableHandle)
 	termObj.amlOffset = curOffset
+
+	// Attach termObj to curObj while its args are being parsed so that any
+	// name lookups for nested args can locate the enclosing scope
+	p.objTree.append(curObj, termObj)
 	res = p.parseObjectArgs(termObj)
+	p.objTree.detach(curObj, termObj)
 	if p.r.EOF() {
 		p.popPkgEnd()
 	}
